@@ -236,14 +236,20 @@ fn hostile_case(idx: u64, rec: &mut Rec) {
 }
 
 fn missing_case(idx: u64, rec: &mut Rec) {
-    // missing / non-textual Location must be an error
+    // missing / non-textual Location must be an error; with several fields the LAST one counts,
+    // so a textual field before a non-textual last one must not be followed either
     let loc: Option<&[u8]> = [None, Some(&b"\xff"[..]), Some(&b"/ok\xff"[..]), Some(&b"\x80http://a.test/"[..])][(idx % 4) as usize];
+    let earlier_textual = idx >= 36;
     let cfg = ReqCfg::new(["GET", "POST", "HEAD"][(idx / 4 % 3) as usize], "http://a.test/x");
     let f = match fast_to_recv(&cfg) {
         Ok(f) => f,
         Err(e) => return rec.fail("C14/setup", e),
     };
     let mut h = RespHead::new(false, [301u16, 302, 307][(idx / 12 % 3) as usize]);
+    if earlier_textual && loc.is_some() {
+        h.fields.push(Field::new("Location", b"https://other.test/fallback"));
+        h.fields.push(Field::new("X-Between", b"1"));
+    }
     if let Some(l) = loc {
         h.fields.push(Field::new("Location", l));
     }
@@ -252,12 +258,12 @@ fn missing_case(idx: u64, rec: &mut Rec) {
     match fast_response(f, &h.render()) {
         Ok((End::Redirect(mut r), ..)) => {
             let res = guarded(move || r.as_new_flow(RedirectAuthHeaders::Never).map(|o| o.map(|f| f.uri().to_string())));
-            rec.cov(if loc.is_none() { "missing-location" } else { "non-textual-location" });
+            rec.cov(if loc.is_none() { "missing-location" } else if earlier_textual { "non-textual-last-location-after-textual" } else { "non-textual-location" });
             match res {
                 Err((l, m)) => rec.fail(&format!("C14/{}", panic_sig(&l, &m)), format!("{} at {}", m, l)),
                 Ok(Err(_)) => {}
                 Ok(Ok(v)) => rec.fail(
-                    if loc.is_none() { "C14/missing-location-not-an-error" } else { "C14/non-textual-location-followed" },
+                    if loc.is_none() { "C14/missing-location-not-an-error" } else if earlier_textual { "C14/earlier-location-used-instead-of-last" } else { "C14/non-textual-location-followed" },
                     format!("Location {:?}: as_new_flow -> Ok({:?})", loc.map(esc), v),
                 ),
             }
@@ -285,7 +291,7 @@ impl Property for P {
             Workload::new("chains", tier.pick(20_000, 8_000_000), false, "random clean chains, URI compared at every hop"),
             Workload::new("wire", tier.pick(5_000, 2_000_000), false, "request line and Host of every intermediate hop"),
             Workload::new("hostile", (HOSTILE.len() * 3) as u64, true, "hostile Locations x 3 bases, weak oracle"),
-            Workload::new("missing", 36, true, "missing / non-textual Location"),
+            Workload::new("missing", 72, true, "missing / non-textual Location, alone and as the last of several fields"),
         ]
     }
     fn run_case(&self, wl: &str, idx: u64, seed: u64, rec: &mut Rec) {
@@ -309,6 +315,7 @@ impl Property for P {
         v.push(("several-location-fields".into(), 50));
         v.push(("wire-checked".into(), 500));
         v.push(("missing-location".into(), 5));
+        v.push(("non-textual-last-location-after-textual".into(), 5));
         v.push(("hostile/*".into(), 50));
         v
     }
